@@ -4,7 +4,7 @@
    glue of devices/files.py) over the regenerated gen/Gen_locks.v (range test, limits, decision tables). *)
 From Coq Require Import ZArith List Bool Lia.
 From PCB Require Import lib.Result lib.PyInt gen.Gen_locks model.Locks proofs.Locks_proofs.
-From PCB Require Import model.RandomFile model.SharedFile proofs.RandomFile_proofs proofs.SharedFile_proofs.
+From PCB Require Import model.RandomFile model.SharedFile proofs.SharedFrame_proofs.
 Import ListNotations.
 Open Scope Z_scope.
 
